@@ -9,13 +9,33 @@ from .fdvalues import (BoundExt, ClassVal, CoroVal, EnumVal, ExtVal, FuncVal, Ga
 from .report import Unsupported
 from .srcmodel import ClassDef, FuncDef, dotted, norm
 
-PASS_THROUGH_DECORATORS = ("v_args", "staticmethod", "abstractmethod", "post_load", "pre_load", "post_dump",
+PASS_THROUGH_DECORATORS = ("singledispatch", "v_args", "staticmethod", "abstractmethod", "post_load", "pre_load", "post_dump",
                            "pre_dump", "inject.params", "params", "classmethod", "property")
 LOGGER_METHODS = ("debug", "info", "warning", "error", "exception", "critical", "log", "setLevel")
 
 
 class CallMixin:  # pylint:disable=too-many-public-methods
     # ------------------------------------------------------------------ decorators / injection
+    def class_frame(self, cls: ClassDef):
+        """Scope in which class-level assignments are evaluated: the class' own methods are visible by name."""
+        from .fdai import Frame
+
+        fr = Frame(None, cls.module, None, set())
+        for cn in reversed(self.model.mro(cls.qualname)):
+            c = self.model.classes.get(cn)
+            if c is not None:
+                for name, m in c.methods.items():
+                    fr.vars[name] = FuncVal(fn=m, module=m.module)
+        return fr
+
+    def bind_class_attr(self, val: Any, inst: Any) -> Any:
+        if isinstance(val, Obj) and val.cls == "functools.partialmethod":
+            f = val.fields["func"]
+            if isinstance(f, FuncVal) and f.fn is not None and inst is not None:
+                f = FuncVal(fn=f.fn, self_obj=inst, module=f.module)
+            return Obj("functools.partial", {"func": f, "args": list(val.fields["args"]), "kwargs": dict(val.fields["kwargs"])})
+        return val
+
     def injected_params(self, fv: FuncVal) -> Dict[str, Any]:
         fn = fv.fn
         out: Dict[str, Any] = {}
@@ -31,9 +51,42 @@ class CallMixin:  # pylint:disable=too-many-public-methods
                         out[kw.arg] = self.attr_memo[key]
         return out
 
+    def single_dispatch(self, fn: FuncDef, first_arg: Any) -> FuncDef:
+        """functools.singledispatch: the implementation registered for the nearest class in the argument's MRO."""
+        from .fdai import Frame
+
+        registry: List[Any] = []
+        for other in self.model.functions.values():
+            if other.module is not fn.module and fn.name not in other.module.imports:
+                continue
+            for d in other.node.decorator_list:
+                target = d.func if isinstance(d, ast.Call) else d
+                if isinstance(target, ast.Attribute) and target.attr == "register" and (dotted(target.value) or "").split(".")[-1] == fn.name:
+                    classes: List[Any] = []
+                    if isinstance(d, ast.Call) and d.args:
+                        classes = [self.eval(d.args[0], Frame(None, other.module, None, set()))]
+                    else:
+                        a = other.node.args.args
+                        if a and a[0].annotation is not None:
+                            classes = [self.eval(a[0].annotation, Frame(None, other.module, None, set()))]
+                    for c in classes:
+                        for cc in (c if isinstance(c, tuple) else (c,)):
+                            if isinstance(cc, ClassVal):
+                                registry.append((cc.name, other))
+        vc = self.class_of(first_arg)
+        if vc is None:
+            raise Unsupported(f"singledispatch on {first_arg!r}")
+        for cname in self.class_mro(vc):
+            for rname, impl in registry:
+                if rname == cname:
+                    return impl
+        return fn
+
     def has_active_decorators(self, fn: FuncDef) -> bool:
         for d in fn.node.decorator_list:
             name = dotted(d.func if isinstance(d, ast.Call) else d) or norm(d)
+            if name.split(".")[-1] == "register" and isinstance(d.func if isinstance(d, ast.Call) else d, ast.Attribute):
+                continue  # @dispatcher.register(...) leaves the function itself unchanged
             if not any(name == p or name.endswith("." + p) for p in PASS_THROUGH_DECORATORS):
                 return True
         return False
@@ -89,6 +142,9 @@ class CallMixin:  # pylint:disable=too-many-public-methods
             fn: FuncDef = func.fn
             if fn.qualname in self.summaries:
                 return self.summaries[fn.qualname](self, func, args, kwargs)
+            if not func.raw and any((dotted(d) or "").split(".")[-1] == "singledispatch" for d in fn.node.decorator_list):
+                impl = self.single_dispatch(fn, args[0] if args else None)
+                return self.call(FuncVal(fn=impl, self_obj=func.self_obj, env=func.env, module=impl.module, raw=True), args, kwargs, node, frame)
             if not func.raw and self.has_active_decorators(fn):
                 return self.call(self.bound_value(fn, func), args, kwargs, node, frame)
             if fn.is_async:
@@ -100,6 +156,19 @@ class CallMixin:  # pylint:disable=too-many-public-methods
             return self.call_ext(func.name, args, kwargs, node, frame)
         if isinstance(func, BoundExt):
             return self.call_bound(func, args, kwargs, node, frame)
+        if isinstance(func, Obj) and func.cls == "operator.attrgetter":
+            def get_path(o, path):
+                for part in path.split("."):
+                    o = self.getattr(o, part, node, frame)
+                return o
+            vals = [get_path(args[0], p_) for p_ in func.fields["args"]]
+            return vals[0] if len(vals) == 1 else tuple(vals)
+        if isinstance(func, Obj) and func.cls == "operator.itemgetter":
+            vals = [self.call_bound(BoundExt(args[0], "__getitem__"), [k_], {}, node, frame) for k_ in func.fields["args"]]
+            return vals[0] if len(vals) == 1 else tuple(vals)
+        if isinstance(func, Obj) and func.cls == "operator.methodcaller":
+            m_ = self.getattr(args[0], func.fields["args"][0], node, frame)
+            return self.call(m_, list(func.fields["args"][1:]), dict(func.fields["kwargs"]), node, frame)
         if isinstance(func, Obj) and func.cls == "functools.partial":
             return self.call(func.fields["func"], [*func.fields["args"], *args], {**func.fields["kwargs"], **kwargs}, node, frame)
         if isinstance(func, Obj) and func.cls == "functools.identity_decorator":
@@ -188,7 +257,7 @@ class CallMixin:  # pylint:disable=too-many-public-methods
                     if v == val and type(v) is type(val):
                         return EnumVal(name, n, v)
                 raise PyRaise(self.exc("builtins.ValueError", f"{val!r} is not a valid {cls.name}"))
-            if self.is_attrs(name):
+            if self.is_attrs(name) or "typing.NamedTuple" in self.model.mro(name):
                 return self.construct_attrs(cls, args, kwargs, node, frame)
             obj = Obj(name)
             init = self.model.find_method(cls, "__init__")
@@ -309,13 +378,17 @@ class CallMixin:  # pylint:disable=too-many-public-methods
                     return FuncVal(fn=m, self_obj=v, module=m.module)
                 ca = self.model.class_attr(cls, attr)
                 if ca is not None:
-                    from .fdai import Frame
                     key = (v.cls, "classattr", attr)
                     if key not in self.attr_memo:
-                        self.attr_memo[key] = self.eval(ca, Frame(None, cls.module, None, set()))
-                    return self.attr_memo[key]
+                        self.attr_memo[key] = self.eval(ca, self.class_frame(cls))
+                    return self.bind_class_attr(self.attr_memo[key], v)
             if cls is not None and self.model.is_transformer(cls) and attr == "transform":
                 return BoundExt(v, "transform")
+            if cls is not None and "typing.NamedTuple" in self.model.mro(v.cls):
+                if attr == "_fields":
+                    return tuple(self.model.attrs_fields(cls))
+                if attr in ("_asdict", "_replace"):
+                    return BoundExt(v, attr)
             if v.cls == "functools.lru_cache_wrapper":
                 if attr in ("cache_info", "cache_clear"):
                     return BoundExt(v, attr)
@@ -381,11 +454,10 @@ class CallMixin:  # pylint:disable=too-many-public-methods
                     return FuncVal(fn=m, module=m.module)
                 ca = self.model.class_attr(cls, attr)
                 if ca is not None:
-                    from .fdai import Frame
                     key = (v.name, "classattr", attr)
                     if key not in self.attr_memo:
-                        self.attr_memo[key] = self.eval(ca, Frame(None, cls.module, None, set()))
-                    return self.attr_memo[key]
+                        self.attr_memo[key] = self.eval(ca, self.class_frame(cls))
+                    return self.bind_class_attr(self.attr_memo[key], None)
             if attr == "__name__":
                 return v.name.rsplit(".", 1)[-1]
             if cls is None and v.name in ("builtins.str", "builtins.list", "builtins.dict", "builtins.set", "builtins.tuple", "builtins.int"):
@@ -579,6 +651,14 @@ class CallMixin:  # pylint:disable=too-many-public-methods
                 return None
         if isinstance(r, Obj) and r.cls in ("lark.Tree",):
             return self.tree_method(r, a, args, kwargs, node, frame)
+        if isinstance(r, Obj) and r.cls in self.model.classes and "typing.NamedTuple" in self.model.mro(r.cls):
+            order = list(self.model.attrs_fields(self.model.classes[r.cls]))
+            if a == "_asdict":
+                return {k: r.fields[k] for k in order}
+            if a == "_replace":
+                f_ = dict(r.fields)
+                f_.update(kwargs)
+                return Obj(r.cls, f_)
         if isinstance(r, Obj) and r.cls == "functools.lru_cache_wrapper":
             if a == "cache_info":
                 return Obj("functools.CacheInfo", {"currsize": len(r.fields["cache"]), "maxsize": r.fields.get("maxsize"),
@@ -921,6 +1001,45 @@ class CallMixin:  # pylint:disable=too-many-public-methods
             if isinstance(v, Obj):
                 return Obj(v.cls, dict(v.fields))
             return v
+        if name == "functools.partialmethod":
+            return Obj("functools.partialmethod", {"func": args[0], "args": list(args[1:]), "kwargs": dict(kwargs)})
+        if name == "functools.reduce":
+            items = self.iterate(args[1], node, frame)
+            if len(args) > 2:
+                acc_ = args[2]
+            elif items:
+                acc_, items = items[0], items[1:]
+            else:
+                self.raise_("TypeError", "reduce() of empty iterable with no initial value")
+            for x in items:
+                acc_ = self.call(args[0], [acc_, x], {}, node, frame)
+            return acc_
+        if name in ("operator.attrgetter", "operator.itemgetter", "operator.methodcaller"):
+            return Obj(name, {"args": list(args), "kwargs": dict(kwargs)})
+        if name.startswith("operator."):
+            opn = name[9:].strip("_")
+            import ast as _ast
+            binops = {"or": _ast.BitOr(), "and": _ast.BitAnd(), "xor": _ast.BitXor(), "add": _ast.Add(), "concat": _ast.Add(), "iconcat": _ast.Add(), "iadd": _ast.Add(),
+                      "sub": _ast.Sub(), "mul": _ast.Mult(), "mod": _ast.Mod()}
+            if opn in binops and len(args) == 2:
+                if opn in ("iconcat", "iadd") and isinstance(args[0], list):
+                    args[0].extend(self.iterate(args[1], node, frame))
+                    return args[0]
+                return self.binop(binops[opn], args[0], args[1], node, frame)
+            cmps = {"eq": _ast.Eq(), "ne": _ast.NotEq(), "is": _ast.Is(), "is_not": _ast.IsNot(), "lt": _ast.Lt(), "le": _ast.LtE(), "gt": _ast.Gt(), "ge": _ast.GtE()}
+            if name[9:] in ("is_", "is_not", "eq", "ne", "lt", "le", "gt", "ge") and len(args) == 2:
+                return self.compare(cmps[name[9:].rstrip("_") if name[9:] != "is_not" else "is_not"], args[0], args[1], node, frame)
+            if opn == "contains":
+                return self.contains(args[0], args[1], node, frame)
+            if opn == "not":
+                return not self.truth(args[0])
+            if opn == "truth":
+                return self.truth(args[0])
+            if opn == "getitem":
+                return self.call_bound(BoundExt(args[0], "__getitem__"), [args[1]], {}, node, frame)
+            raise Unsupported(f"operator.{name[9:]}")
+        if name == "contextlib.suppress":
+            return Obj("contextlib.suppress", {"classes": list(args)})
         if name == "functools.partial":
             return Obj("functools.partial", {"func": args[0], "args": list(args[1:]), "kwargs": dict(kwargs)})
         if name in ("functools.wraps",):
